@@ -421,6 +421,26 @@ def ptrStep (rec : Rec) (r : Registry) (x : JV) (pe : GoType) : Step :=
   | ⟨.ok v, r'⟩ => ⟨.ok (.ptr v), r'⟩
   | st => st
 
+/-- the end of a walk over elements: the slot built from the values, or the first panic -/
+def listFinish (mk : List GoVal → GoVal) (res : (Option (List GoVal) × Slot) × Registry) : Step :=
+  match res with
+  | ((some vs, _), r') => ⟨.ok (mk vs), r'⟩
+  | ((none, s), r') => ⟨s, r'⟩
+
+def kvsFinish (mk : List (Bytes × GoVal) → GoVal) (res : (Option (List (Bytes × GoVal)) × Slot) × Registry) : Step :=
+  match res with
+  | ((some ms, _), r') => ⟨.ok (mk ms), r'⟩
+  | ((none, s), r') => ⟨s, r'⟩
+
+/-- the composer a create-key member names: `if cv := tv[r.CreateKey]; cv != nil { tn, _ := cv.(string);
+if c := r.composers[tn]; c != nil` (a non-string value gives the name "") -/
+def createKeyComposer (ck : Bytes) (r : Registry) (kvs : List (Bytes × JV)) : Option Composer :=
+  match jvLookup kvs ck with
+  | none => none
+  | some .null => none
+  | some (.str tn) => r.find tn
+  | some _ => r.find []
+
 /-- `recompAny` -/
 def recAny (ck : Bytes) (rec : Rec) (r : Registry) (j : JV) : Step :=
   match j with
@@ -429,73 +449,61 @@ def recAny (ck : Bytes) (rec : Rec) (r : Registry) (j : JV) : Step :=
   | .int i => ⟨.ok (.iface (.int 4) (.int i)), r⟩
   | .flt s => ⟨.ok (.iface (.float false) (.flt s)), r⟩
   | .str s => ⟨.ok (.iface .str (.str s)), r⟩
-  | .arr xs =>
-    match stepList (fun r' x => rec r' 0 x .iface none) r xs [] with
-    | ((some vs, _), r') => ⟨.ok (.iface (.slice .iface) (.slice vs)), r'⟩
-    | ((none, s), r') => ⟨s, r'⟩
+  | .arr xs => listFinish (fun vs => .iface (.slice .iface) (.slice vs)) (stepList (fun r' x => rec r' 0 x .iface none) r xs [])
   | .obj kvs =>
-    -- `if cv := tv[r.CreateKey]; cv != nil { tn, _ := cv.(string); if c := r.composers[tn]; c != nil`
-    match (match jvLookup kvs ck with
-           | none => none
-           | some .null => none
-           | some (.str tn) => r.find tn
-           | some _ => r.find []) with
+    match createKeyComposer ck r kvs with
     | some c =>
       -- `rv := reflect.New(c.rtype); r.recomp(v, rv); return rv.Interface()`
       match rec r 2 j c.rtype none with
       | ⟨.ok v, r'⟩ => ⟨.ok (.iface (.ptr c.rtype) (.ptr v)), r'⟩
       | st => st
     | none =>
-      match stepKvs (fun r' x => rec r' 0 x .iface none) r kvs [] with
-      | ((some ms, _), r') => ⟨.ok (.iface (.map .iface) (.map ms)), r'⟩
-      | ((none, s), r') => ⟨s, r'⟩
+      kvsFinish (fun ms => .iface (.map .iface) (.map ms)) (stepKvs (fun r' x => rec r' 0 x .iface none) r kvs [])
   | _ => ⟨.outside, r⟩
+
+def bytesOf (vs : List GoVal) : GoVal := .bytes (vs.map fun v => match v with | .int i => i.toNat.toUInt8 | _ => 0)
 
 def recBytes (r : Registry) (j : JV) : Step :=
   match j with
-  | .arr xs =>
-    match stepList (fun r' x => ⟨scalarSlot (.int 6) x none, r'⟩) r xs [] with
-    | ((some vs, _), r') => ⟨.ok (.bytes (vs.map fun v => match v with | .int i => i.toNat.toUInt8 | _ => 0)), r'⟩
-    | ((none, s), r') => ⟨s, r'⟩
+  | .arr xs => listFinish bytesOf (stepList (fun r' x => ⟨scalarSlot (.int 6) x none, r'⟩) r xs [])
   | _ => ⟨.panic, r⟩
+
+/-- an element of a slice: pointer elements get `reflect.New(et)` first, the others `setValue` -/
+def elemStep (rec : Rec) (e : GoType) (r : Registry) (x : JV) : Step :=
+  match e with
+  | .ptr pe => ptrStep rec r x pe
+  | _ => rec r 2 x e none
 
 def recSlice (rec : Rec) (r : Registry) (e : GoType) (j : JV) : Step :=
   match j with
-  | .arr xs =>
-    match stepList (fun r' x =>
-        match e with
-        | .ptr pe => ptrStep rec r' x pe
-        | _ => rec r' 2 x e none) r xs [] with
-    | ((some vs, _), r') => ⟨.ok (.slice vs), r'⟩
-    | ((none, s), r') => ⟨s, r'⟩
+  | .arr xs => listFinish .slice (stepList (elemStep rec e) r xs [])
   | _ => ⟨.panic, r⟩
 
 def recArray (rec : Rec) (r : Registry) (n : Nat) (e : GoType) (j : JV) : Step :=
   match j with
   | .arr xs =>
-    match stepList (fun r' x => rec r' 2 x e none) r (xs.take n) [] with
-    | ((some vs, _), r') => ⟨.ok (.arr (vs ++ List.replicate (n - vs.length) (zeroVal fuelZ e))), r'⟩
-    | ((none, s), r') => ⟨s, r'⟩
+    listFinish (fun vs => .arr (vs ++ List.replicate (n - vs.length) (zeroVal fuelZ e)))
+      (stepList (fun r' x => rec r' 2 x e none) r (xs.take n) [])
   | _ => ⟨.panic, r⟩
+
+/-- a value of a map: `interface{}` values through `recompAny`, pointer values through
+`reflect.New(et)`, the others through `recomp(m, reflect.New(et))` -/
+def mapElemStep (rec : Rec) (e : GoType) (r : Registry) (x : JV) : Step :=
+  match e with
+  | .iface => rec r 0 x .iface none
+  | .ptr pe => ptrStep rec r x pe
+  | _ => rec r 1 x e none
+
+/-- `rv.SetMapIndex(k, reflect.ValueOf(r.recompAny(m)))`: a nil `interface{}` value sets nothing -/
+def mapFinish (e : GoType) (ms : List (Bytes × GoVal)) : GoVal :=
+  match e with
+  | .iface => .map (ms.filter fun kv => match kv.2 with | .nilIface => false | _ => true)
+  | _ => .map ms
 
 def recMap (rec : Rec) (r : Registry) (e : GoType) (j : JV) : Step :=
   match j with
   | .null => ⟨.ok .nilMap, r⟩
-  | .obj kvs =>
-    match e with
-    | .iface =>
-      -- `rv.SetMapIndex(k, reflect.ValueOf(r.recompAny(m)))`: a nil datum sets nothing
-      match stepKvs (fun r' x => rec r' 0 x .iface none) r kvs [] with
-      | ((some ms, _), r') => ⟨.ok (.map (ms.filter fun kv => match kv.2 with | .nilIface => false | _ => true)), r'⟩
-      | ((none, s), r') => ⟨s, r'⟩
-    | .ptr pe =>
-      match stepKvs (fun r' x => ptrStep rec r' x pe) r kvs [] with
-      | ((some ms, _), r') => ⟨.ok (.map ms), r'⟩
-      | ((none, s), r') => ⟨s, r'⟩
-    | _ =>
-      match stepKvs (fun r' x => rec r' 1 x e none) r kvs [] with
-      | ((some ms, _), r') => ⟨.ok (.map ms), r'⟩
-      | ((none, s), r') => ⟨s, r'⟩
+  | .obj kvs => kvsFinish (mapFinish e) (stepKvs (mapElemStep rec e) r kvs [])
   | _ => ⟨.panic, r⟩
 
 def recStruct (cf : ComposerFor) (rec : Rec) (r : Registry) (name pkg : Bytes) (fs : List (FieldHdr × GoType)) (j : JV) : Step :=
